@@ -42,21 +42,25 @@ def mc_replay(ctx, cfgname, over=None, label=None, driver="kernel", module="Kern
     extra = {"simulate": simulate, "depth": depth, "seed": ctx.seed + 1} if simulate else {}
     r = _result if _result is not None else ctx.mc(module, cfg_text(cfgname, over), "kernel", required_actions=required,
                                                    label=label or "%s/%s" % (module, cfgname), timeout=timeout, coverage=False, **extra)
+    # emitted lines are already de-duplicated; when only a sample is to be replayed, sample the raw lines before decoding
+    total_emitted = len(r.prints)
+    if limit and total_emitted > limit:
+        r.prints.sort()
+        ctx.rng.shuffle(r.prints)
+        del r.prints[limit:]
+        ctx.notes.append("%s: %d of %d emitted programs replayed" % (label or cfgname, limit, total_emitted))
     progs = {}
     for w in r.emitted():
         progs.setdefault(json.dumps(w["script"], sort_keys=True), w)
+    r.prints = []
     keys = sorted(progs)
-    if limit and len(keys) > limit:
-        ctx.rng.shuffle(keys)
-        keys = keys[:limit]
-        ctx.notes.append("%s: %d of %d emitted programs replayed" % (cfgname, limit, len(progs)))
     plist = [progs[k] for k in keys]
     inputs = [{"scripts": p["script"]} for p in plist]
     if wrap:
         inputs = [wrap(x) for x in inputs]
     out = ctx.drive(driver, inputs, procs=12)
     ctx.traces += len(plist)
-    ctx.extra["programs_emitted_by_tlc"] = ctx.extra.get("programs_emitted_by_tlc", 0) + len(progs)
+    ctx.extra["programs_emitted_by_tlc"] = ctx.extra.get("programs_emitted_by_tlc", 0) + total_emitted
     bad = 0
     for p, o in zip(plist, out):
         ctx.events += len(o["log"])
